@@ -30,7 +30,7 @@ func init() {
 		Explain: "Decides structural necessary conditions of the cursor contract, for both reader implementations: (C) every memoised field (peeked line, line offset — found by the shape of their memoisation, not by name) is reset on every path of every method that changes a field the memoised value is computed from, so no call sequence can observe a stale view after SetPosition/SetPadding/Advance/AdvanceLine/ResetPosition; (R) the closure-search helper returns with the position it saved at entry restored on every path on which the Advance option is false, and the regexp helpers restore the position before returning 'no match' and consume from the restored position otherwise; (H) SetPosition, which may move the cursor to another line, updates every cursor field that AdvanceLine updates (the line-start field LineOffset counts from in particular); (G) Peek and PeekLine of one type decide end-of-input by the same comparisons; (S) SetPosition stores its arguments into exactly the fields Position returns; (V) Value(seg) is seg.Value(source); (U) no countdown loop uses its index after it may have reached -1. Not decided: the arithmetic of Advance across lines and padding, LineOffset's tab expansion, blockReader.Value over non-contiguous segments, absence of out-of-range positions in general.",
 		Trusted: []string{"regexp.FindReaderSubmatchIndex consumes runes only through ReadRune", "go/ssa CFG"},
 		Assumes: []string{"third-party Reader implementations out of scope", "preconditions of the statement (Advance(n) with n no larger than what remains)"},
-		Rules:   []func(*World, *Report){ruleCacheCoherence, ruleLineStateAgreement, ruleRestoreOnExit, rulePeekGuardAgreement, rulePositionInverse, ruleValueDelegates, ruleCountdownUnderflowC18},
+		Rules:   []func(*World, *Report){ruleCacheCoherence, ruleLineStateAgreement, ruleRestoreOnExit, rulePeekGuardAgreement, rulePositionInverse, ruleValueDelegates, ruleValueIgnoresCursor, ruleCountdownUnderflowC18},
 	})
 }
 
@@ -1192,4 +1192,96 @@ func ruleLineStateAgreement(w *World, r *Report) {
 		}
 	}
 	r.Expect("per-line fields checked", n, 8)
+}
+
+// ---- C18-P ---------------------------------------------------------------------------------------
+
+// loadedFields: receiver field paths loaded by fn, directly or through calls on the same receiver type.
+func (w *World) loadedFields(fn *ssa.Function, t *types.Named, seen map[*ssa.Function]bool, out map[string]ssa.Instruction) {
+	if seen[fn] || fn.Blocks == nil {
+		return
+	}
+	seen[fn] = true
+	for _, b := range fn.Blocks {
+		for _, ins := range b.Instrs {
+			switch x := ins.(type) {
+			case *ssa.UnOp:
+				if x.Op != token.MUL {
+					continue
+				}
+				if root, p, ok := addrFieldPath(x.X); ok && len(p) > 0 && rootIsType(root, t) {
+					if _, has := out[pathKey(p)]; !has {
+						out[pathKey(p)] = x
+					}
+				}
+			case ssa.CallInstruction:
+				if cal := x.Common().StaticCallee(); cal != nil && cal.Signature.Recv() != nil {
+					if n := namedOf(cal.Signature.Recv().Type()); n != nil && n.Obj() == t.Obj() {
+						w.loadedFields(cal, t, seen, out)
+					}
+				}
+			}
+		}
+	}
+}
+
+// ruleValueIgnoresCursor: Value(seg) is a function of the segment and of what the reader reads from, never of where
+// the cursor stands: it loads no receiver field that the cursor-moving operations (AdvanceLine, SetPosition) store.
+func ruleValueIgnoresCursor(w *World, r *Report) {
+	r.Rule("C18-P", "Value(seg) does not depend on the cursor: for every reader type, Value (and what it calls on the same receiver) loads no receiver field that AdvanceLine or SetPosition store. A Value that starts its search at the current line gives a different answer for the same segment after the cursor moved back.")
+	n := 0
+	for _, t := range w.readerTypes() {
+		val := w.DeclaredMethod(t, "Value")
+		if val == nil {
+			r.Unknown(t.Obj().Name()+".Value", "", "method not found")
+			continue
+		}
+		cursor := map[string][]int{}
+		for _, m := range []string{"AdvanceLine", "SetPosition"} {
+			if f := w.DeclaredMethod(t, m); f != nil {
+				w.storedFields(f, t, map[*ssa.Function]bool{}, cursor)
+			}
+		}
+		if len(cursor) == 0 {
+			r.Unknown(t.Obj().Name()+": cursor fields", "", "AdvanceLine/SetPosition store no receiver field: the rule cannot find the cursor")
+			continue
+		}
+		loads := map[string]ssa.Instruction{}
+		w.loadedFields(val, t, map[*ssa.Function]bool{}, loads)
+		n++
+		key := t.Obj().Name() + ".Value reads no cursor field"
+		var bad []string
+		var pos ssa.Instruction
+		for k, ins := range loads {
+			lp := splitPath(k)
+			for _, cp := range cursor {
+				if pathOverlaps(lp, cp) {
+					bad = append(bad, fieldPathName(t, lp))
+					pos = ins
+				}
+			}
+		}
+		sort.Strings(bad)
+		if len(bad) > 0 {
+			r.Bad(key, w.InstrPos(pos), "Value loads "+strings.Join(uniqStrings(bad), ", ")+", which the cursor-moving operations store: its result depends on where the cursor stands")
+		} else {
+			var ks []string
+			for k := range loads {
+				ks = append(ks, fieldPathName(t, splitPath(k)))
+			}
+			sort.Strings(ks)
+			r.OK(key, w.FnPos(val), "loads only "+strings.Join(ks, ", "))
+		}
+	}
+	r.Expect("reader types with a Value method", n, 1)
+}
+
+func uniqStrings(in []string) []string {
+	var out []string
+	for i, s := range in {
+		if i == 0 || s != in[i-1] {
+			out = append(out, s)
+		}
+	}
+	return out
 }
